@@ -164,3 +164,6 @@ Proof.
   destruct (post_returns _ _ _ _ (Hg fuel) _ H0 _ _ E) as [Hok _]. cbn in Hok.
   eapply errs_ok_silent; eauto.
 Qed.
+
+Lemma document_CS fuel : specR CS (g_document fuel).
+Proof. apply gg_document; [exact CS_ok|apply (a_assert _ CS_atoms)]. Qed.
